@@ -60,7 +60,8 @@ def evaluate(mdir, tier, all_checks, skip_tests, seed):
                    env=dict(os.environ, VERIF_REPO=str(wt), VERIF_SEED=str(seed), PYTHONHASHSEED="0"))
             viol = [l for l in r.stdout.splitlines() if l.startswith("VIOLATION")]
             mechs = sorted({l.split("mech=")[1].split(" count=")[0] for l in viol if "mech=" in l})
-            det[p] = {"exit": r.returncode, "mechs": mechs[:6], "s": round(time.time() - t)}
+            nviol = sum(int(l.rsplit("count=", 1)[1]) for l in viol if "count=" in l)
+            det[p] = {"exit": r.returncode, "mechs": mechs[:6], "violations": nviol, "s": round(time.time() - t)}
             if r.returncode not in (0, 1):
                 det[p]["tail"] = (r.stdout.strip().splitlines() or [r.stderr[-200:]])[-2:]
         res["checks"] = det
@@ -86,7 +87,7 @@ def main():
         r = evaluate(m, a.tier, a.all_checks, a.skip_tests, a.seed)
         out.append(r)
         own = r.get("checks", {}).get(r["property"], {})
-        print(f"{r['mutant']}: tests={r.get('tests')} demo={r.get('demo')} own-check exit={own.get('exit')} "
+        print(f"{r['mutant']}: tests={r.get('tests')} demo={r.get('demo')} own-check exit={own.get('exit')} n={own.get('violations')} "
               f"mechs={own.get('mechs')} caught_by={r.get('caught_by')} {r.get('error', '')}", flush=True)
     if a.json:
         json.dump(out, open(a.json, "w"), indent=1)
